@@ -328,7 +328,7 @@ def run(ctx):
         "loop bounds, index expressions, angle coefficients, the U / U^-1 pattern and the prepend order are regenerated "
         "from the source; np.exp(1j*x) = cos x + i sin x (theorems *_complex; the theorems over an abstract ring use any "
         "*-homomorphism q -> exp(i q theta), resp. powers of a unit-modulus u); expm of a diagonal matrix = diagonal of exps "
-        "(ProjectorControlledPhaseShift.as_matrix is checked numerically only); BlockEncodingGate.inverse() is the "
+        "(the coefficients in ProjectorControlledPhaseShift.as_matrix are regenerated from the source, its diagonal is compared); BlockEncodingGate.inverse() is the "
         "inverse matrix (C03) - the theorems hold for ANY pair of matrices U, Ui; the oracle uses numpy.linalg.inv of the "
         "implementation's own matrix; Circuit.as_matrix multiplies the gate matrices, first gate rightmost (C05)")
     ctx.assumes.append("qib's block encodings have exactly one auxiliary qubit (all three methods), so with them the eigenvalue "
@@ -417,6 +417,11 @@ def run(ctx):
                 u = np.exp(1j * theta / 2 ** md)
                 add("CMono %s %s %s %s %s" % (ct.b(aux), ct.nat(n), ct.z(md), ct.fi(u), ct.lst(mono_cols(M))),
                     dict(desc, op="circuit matrix"), n >= 2)
+                if not aux:
+                    A = np.asarray(proc.as_matrix())
+                    if A.shape == (2 ** n, 2 ** n) and np.abs(A - np.diag(np.diag(A))).max() < 1e-12:
+                        add("CPmat %s %s %s" % (ct.nat(n), ct.fi(np.exp(1j * theta)), ct.lst([ct.fi(z) for z in np.diag(A)])),
+                            dict(desc, op="as_matrix diagonal"), n >= 2)
                 # every single gate: the matrix of a circuit consisting of that gate alone
                 if rep < 2 and n <= 6:
                     for k, (g, t) in enumerate(zip(circ.gates, terms)):
@@ -533,7 +538,7 @@ def run(ctx):
                    % (len(word_bad), nword, word_bad[:1]))
 
     if ok_tr:
-        dis = ctx.cases("qubitization", HEADER, cases, fn="bad_cases gen_cphase gen_aux gen_evt_circ")
+        dis = ctx.cases("qubitization", HEADER, cases, fn="bad_cases gen_cphase gen_aux gen_evt_circ gen_pmat")
         for i, d in dis[:5]:
             ctx.log("model/impl disagree on", d)
         if ctx.thorough and not ctx.broken:
